@@ -534,6 +534,15 @@ pub fn correlation_across_connections(_tier: Tier, threads: usize) -> (u64, Vec<
             }
         }
     }
+    // and on one connection: whatever a request of an opcode the server does not implement leaves
+    // behind in the decoder, the requests after it are answered with their own opcode and opaque
+    let unimpl: Vec<usize> = (0..n).filter(|i| matches!(alpha[*i], Elt::Unimpl(..) | Elt::Oversized(..))).collect();
+    for u in &unimpl {
+        for b in (0..n).step_by(3) {
+            streams.push(vec![*u, b]);
+            streams.push(vec![*u, b, 0]);
+        }
+    }
     let res = par_map(&streams, threads, |_, sq| run_stream(&alpha, sq, false, None, false));
     let mut viol: Vec<(String, String)> = vec![];
     let mut err = None;
@@ -542,7 +551,8 @@ pub fn correlation_across_connections(_tier: Tier, threads: usize) -> (u64, Vec<
             Err(e) => err = Some(e),
             Ok(o) => {
                 if let Some((sig, what)) = o.viol {
-                    if sig.starts_with("next-connection") && !viol.iter().any(|v| v.0 == sig) {
+                    let mine = ["next-connection", "frame", "extra-response", "no-response"].iter().any(|p| sig.starts_with(p));
+                    if mine && !viol.iter().any(|v| v.0 == sig) {
                         viol.push((sig, what));
                     }
                 }
